@@ -90,6 +90,9 @@ func (r *run) prevKey(side string, p pair) *types.EncryptionKey {
 		return nil
 	}
 	ck := r.w.EnsureCertKey(p.k)
+	if p.k == "k0" {
+		ck = &world.CertKey{} // "k0": the EMPTY key id (a record of the previous key that carries no id)
+	}
 	ek := r.w.EnsureEncKey(p.e)
 	sk := r.serverKey(p.g)
 	if side == "node" {
@@ -100,8 +103,18 @@ func (r *run) prevKey(side string, p pair) *types.EncryptionKey {
 
 // idMode: how the record of a server-side source is filed: under the key id of its certificate key
 // (what the library's flows do), under an application-assigned identifier, or with no id set
+// emptyIdSource is a key source whose current key id is empty (the producer contract allows it): no
+// associated data is bound on its side
+type emptyIdSource struct{ nodeenrollment.X25519KeyProducer }
+
+func (e emptyIdSource) X25519EncryptionKey() (string, []byte, error) {
+	_, k, err := e.X25519KeyProducer.X25519EncryptionKey()
+	return "", k, err
+}
+
 func (r *run) sourceId(side string, cur, prev pair, idMode string) nodeenrollment.X25519KeyProducer {
 	src := r.source(side, cur, prev)
+
 	switch x := src.(type) {
 	case *types.NodeInformation:
 		switch idMode {
@@ -114,6 +127,9 @@ func (r *run) sourceId(side string, cur, prev pair, idMode string) nodeenrollmen
 		if idMode != "empty" {
 			x.Id = string(nodeenrollment.CurrentId)
 		}
+	}
+	if cur.k == "k0" {
+		return emptyIdSource{src}
 	}
 	return src
 }
@@ -141,6 +157,9 @@ func (r *run) message(kind string) (proto.Message, proto.Message) {
 		return &types.NodeCredentials{RegistrationNonce: rb(32), CertificateBundles: []*types.CertificateBundle{{CertificateDer: rb(300)}, {CertificateDer: rb(10)}}}, new(types.NodeCredentials)
 	case "tiny":
 		return &types.WrappingRegistrationFlowInfo{Nonce: rb(1)}, new(types.WrappingRegistrationFlowInfo)
+	case "empty":
+		// every field at its zero value: the encoding is zero bytes long
+		return new(types.WrappingRegistrationFlowInfo), &types.WrappingRegistrationFlowInfo{Nonce: []byte("must be overwritten or reported")}
 	}
 	return &types.WrappingRegistrationFlowInfo{Nonce: rb(32), CertificatePublicKeyPkix: rb(44)}, new(types.WrappingRegistrationFlowInfo)
 }
